@@ -11,10 +11,12 @@
    * Context.__enter__/__exit__ (callbacks first, pop in `finally`), MachineController.application,
      update_current_context;
    * MachineController._get_connection / _send_scp, BMPController._send_scp (choice of the connection);
-   * for every decorated method, the commands it hands to a connection that carry contextual arguments
-     ("key wires"): the first one always, later ones where they carry the application id.  Method bodies
-     are written in a tiny language (send / connection read-write / call of another decorated method),
-     so calls between decorated methods go through the resolution again, as in the code.
+   * for every decorated method, EVERY command it hands to a connection, in order (not only the first),
+     on the path taken against the fake machine of the harness (see mc_bodies).  Method bodies are written
+     in a tiny language (send / connection read-write / call of another decorated method / per-element
+     recursion / conditions on arguments), so calls between decorated methods -- including a method
+     re-entering itself once per element of a sequence argument -- go through the resolution again, as in
+     the code.
 
    Conventions: names are Coq strings; a dict is an association list in insertion order whose keys are
    kept unique by [supdate]; the signatures (all_signatures) come from Generated/GenSignatures.v. *)
@@ -185,6 +187,11 @@ Inductive body : Type :=
 | BThen (b1 b2 : body)
 | BIfAligned (es : list expr) (b_then b_else : body)   (* all of es are multiples of 4 *)
 | BNeedArgs (lo hi : nat) (b : body)                   (* lo <= len(args) <= hi, else TypeError *)
+| BIfTrue (cnd : expr) (b_then b_else : body)          (* if cnd: ... else: ... (Python truthiness) *)
+| BNeedInt (ie : expr)                                 (* arithmetic on ie between two commands: TypeError unless an int *)
+| BForEach (it : expr) (b_each b_scalar : body)        (* it is a sequence: b_each once per element; else b_scalar *)
+| BFail (er : err)                                     (* the method raises (with the replies of the fake machine) *)
+| BSkip                                                (* an optional command that is not sent on this path *)
 | BNoSend.
 
 Definition key_x (v : value) : option value :=
@@ -270,10 +277,29 @@ Definition eval_cmd (e : env) (cmd : expr) : option (option value) :=
   | _ => match eval e cmd with Some v => Some (Some v) | None => None end
   end.
 
+(* Python truthiness of a value used as a condition *)
+Definition truthy (v : value) : bool :=
+  match v with VInt z => negb (z =? 0) | VNone => false | VBool b => b | VTok _ => true end.
+
+(* An opaque object used as the `state` argument of count_cores_in_state: token t stands for a single
+   state name when t mod 4 is 0 or 3, for a sequence of 2 states when it is 1, of 3 states when it is 2.
+   Integers, None and booleans are not sequences. *)
+Definition iter_len (v : value) : option nat :=
+  match v with
+  | VTok t => if t mod 4 =? 1 then Some 2%nat else if t mod 4 =? 2 then Some 3%nat else None
+  | _ => None
+  end.
+
 Definition seq_outcome (o1 : outcome) (o2 : unit -> outcome) : outcome :=
   match o1 with
   | (ws, Some e) => (ws, Some e)
   | (ws, None) => let '(ws2, e2) := o2 tt in (ws ++ ws2, e2)
+  end.
+
+Fixpoint repeat_outcome (n : nat) (f : unit -> outcome) : outcome :=
+  match n with
+  | O => ([], None)
+  | S n' => seq_outcome (f tt) (fun _ => repeat_outcome n' f)
   end.
 
 Fixpoint run_body (callf : string -> list value -> list (string * value) -> outcome)
@@ -336,6 +362,26 @@ Fixpoint run_body (callf : string -> list value -> list (string * value) -> outc
   | BNeedArgs lo hi b1 =>
       if (Nat.leb lo (List.length (e_varargs e))) && (Nat.leb (List.length (e_varargs e)) hi)
       then run_body callf c e b1 else ([], Some TypeErr)
+  | BIfTrue cnd b1 b2 =>
+      match eval e cnd with
+      | None => ([], Some OtherErr)
+      | Some v => if truthy v then run_body callf c e b1 else run_body callf c e b2
+      end
+  | BNeedInt x =>
+      match eval e x with
+      | None => ([], Some OtherErr)
+      | Some v => match as_int v with Some _ => ([], None) | None => ([], Some TypeErr) end
+      end
+  | BForEach x b_each b_scalar =>
+      match eval e x with
+      | None => ([], Some OtherErr)
+      | Some v => match iter_len v with
+                  | Some n => repeat_outcome n (fun _ => run_body callf c e b_each)
+                  | None => run_body callf c e b_scalar
+                  end
+      end
+  | BFail x => ([], Some x)
+  | BSkip => ([], None)
   | BNoSend => ([], None)
   end.
 
@@ -345,12 +391,27 @@ Definition K (z : Z) := EConst (VInt z).
 Definition app_in (arg : nat) (shift : Z) : (fkind * nat * Z * expr) := (FByte, arg, shift, EParam "app_id").
 Definition sub (arg : nat) (shift mask v : Z) : (nat * Z * Z * Z) := (arg, shift, mask, v).
 
-(* a read of a field of the system-wide struct on the chip named by the caller (p is NOT passed on) *)
-Definition sv_field_read : body := BCall "read_struct_field" [EOpq 1; EOpq 2; P "x"; P "y"] [].
+(* self.read_struct_field("sv", <field>, x, y): p is NOT passed on *)
+Definition rsf_sv (x y : expr) : body := BCall "read_struct_field" [EOpq 1; EOpq 2; x; y] [].
+Definition sv_field_read : body := rsf_sv (P "x") (P "y").
+(* the address the fake machine returns for an allocation (word aligned) *)
+Definition ALLOC_ADDR : Z := 1610612992.     (* 0x60000100 *)
+Definition nn (sub_cmd : Z) fields : body :=
+  BSend (K 255) (K 255) (K 0) (K SCP_nearest_neighbour_packet) [sub 0 24 255 sub_cmd] fields.
+Definition count_cmd : body :=
+  BSend (K 255) (K 255) (K 0) (K SCP_signal) [sub 1 20 15 (4 + AppDiag_count)] [app_in 1 0].
+(* vcpu_base read, then address arithmetic with p, then the access itself (p is NOT passed on) *)
+Definition vcpu_access (m : string) : body :=
+  BThen sv_field_read (BThen (BNeedInt (P "p")) (BCall m [EOpq 3; EOpq 4; P "x"; P "y"] [])).
 
+(* Every command each method hands to a connection, in order, on the path taken when the machine answers
+   as the fake of harness/impl_c18.py does (every command succeeds; memory reads return zeros; an
+   allocation returns ALLOC_ADDR; a count returns 1) and with the non-contextual data used there (one
+   application on one core, a 4 byte binary, one routing table). *)
 Definition mc_bodies : list (string * body) :=
   [ ("send_scp", BSend (P "x") (P "y") (P "p") (EVarg 0) [] []);
-    ("discover_connections", BCall "get_p2p_routing_table" [P "x"; P "y"] []);
+    (* the P2P table of the fake machine is empty: max() of nothing *)
+    ("discover_connections", BThen (BCall "get_p2p_routing_table" [P "x"; P "y"] []) (BFail ValueErr));
     ("application", BNoSend);
     ("get_software_version", BSend (P "x") (P "y") (P "processor") (K SCP_sver) [] []);
     ("get_ip_address", BCall "get_chip_info" [] [("x", P "x"); ("y", P "y")]);
@@ -360,11 +421,12 @@ Definition mc_bodies : list (string * body) :=
     ("read_across_link", BSend (P "x") (P "y") (K 0) (K SCP_link_read) [] [(FByte, 2%nat, 0, P "link")]);
     ("read_struct_field", BCall "read" [EOpq 3; EOpq 4; P "x"; P "y"; P "p"] []);
     ("write_struct_field", BCall "write" [EOpq 3; EOpq 4; P "x"; P "y"; P "p"] []);
-    ("read_vcpu_struct_field", sv_field_read);
-    ("write_vcpu_struct_field", sv_field_read);
-    ("get_processor_status", sv_field_read);
+    ("read_vcpu_struct_field", vcpu_access "read");
+    ("write_vcpu_struct_field", vcpu_access "write");
+    ("get_processor_status", vcpu_access "read");
     ("get_iobuf", BCall "get_iobuf_bytes" [P "p"; P "x"; P "y"] []);
-    ("get_iobuf_bytes", sv_field_read);
+    (* iobuf_size, then the vcpu field "iobuf" (a null pointer on the fake machine: no buffer is read) *)
+    ("get_iobuf_bytes", BThen sv_field_read (BCall "read_vcpu_struct_field" [EOpq 5; P "x"; P "y"; P "p"] []));
     ("get_router_diagnostics", BCall "read" [EOpq 5; EOpq 6] [("x", P "x"); ("y", P "y")]);
     ("iptag_set", BSend (P "x") (P "y") (K 0) (K SCP_iptag) [sub 0 16 255 IPTagCmd_set] []);
     ("iptag_get", BSend (P "x") (P "y") (K 0) (K SCP_iptag) [sub 0 16 255 IPTagCmd_get] []);
@@ -373,38 +435,51 @@ Definition mc_bodies : list (string * body) :=
     ("fill", BIfAligned [P "size"; P "address"]
                (BSend (P "x") (P "y") (P "p") (K SCP_fill) [] [])
                (BCall "write" [P "address"; EOpq 7; P "x"; P "y"; P "p"] []));
-    ("sdram_alloc", BSend (P "x") (P "y") (K 0) (K SCP_alloc_free) [sub 0 0 255 Alloc_alloc_sdram] [app_in 0 8]);
+    ("sdram_alloc",
+       BThen (BSend (P "x") (P "y") (K 0) (K SCP_alloc_free) [sub 0 0 255 Alloc_alloc_sdram] [app_in 0 8])
+             (BIfTrue (P "clear") (BCall "fill" [K ALLOC_ADDR; K 0; P "size"; P "x"; P "y"; K 0] []) BSkip));
     ("sdram_alloc_as_filelike",
        BCall "sdram_alloc" [P "size"; P "tag"; P "x"; P "y"; P "app_id"; P "clear"] []);
     ("sdram_free", BSend (P "x") (P "y") (K 0) (K SCP_alloc_free) [sub 0 0 255 Alloc_free_sdram_by_ptr] []);
+    (* start, one core-select, the read of sv.sdram_sys at (255, 255), one data block, end *)
     ("flood_fill_aplx",
        BNeedArgs 1 2
-         (BThen (BSend (K 255) (K 255) (K 0) (K SCP_nearest_neighbour_packet) [sub 0 24 255 NN_flood_fill_start] [])
-                (BSend (K 255) (K 255) (K 0) (K SCP_nearest_neighbour_packet) [sub 0 24 255 NN_flood_fill_end]
-                       [app_in 1 24])));
+         (BThen (nn NN_flood_fill_start [])
+         (BThen (nn NN_flood_fill_core_select [])
+         (BThen (rsf_sv (K 255) (K 255))
+         (BThen (BSend (K 255) (K 255) (K 0) (K SCP_flood_fill_data) [] [])
+                (nn NN_flood_fill_end [app_in 1 24]))))));
+    (* flood fill, count of the cores in wait (equal to the number loaded: done), start signal unless wait *)
     ("load_application",
        BNeedArgs 1 2
          (BThen (BCall "flood_fill_aplx" [EOpq 8] [("app_id", P "app_id"); ("wait", EConst (VBool true))])
-                (BCall "count_cores_in_state" [EOpq 9; P "app_id"] [])));
+         (BThen (BCall "count_cores_in_state" [EOpq 0; P "app_id"] [])
+                (BIfTrue (P "wait") BSkip (BCall "send_signal" [K AppSignal_start; P "app_id"] [])))));
     ("send_signal", BSend (K 255) (K 255) (K 0) (K SCP_signal) [sub 1 20 15 0]
                           [(FByte, 1%nat, 16, P "signal"); app_in 1 0]);
-    ("count_cores_in_state", BSend (K 255) (K 255) (K 0) (K SCP_signal) [sub 1 20 15 (4 + AppDiag_count)]
-                                   [app_in 1 0]);
+    (* a sequence of states: one recursive call per state, app_id passed on explicitly *)
+    ("count_cores_in_state",
+       BForEach (P "state") (BCall "count_cores_in_state" [EOpq 0; P "app_id"] []) count_cmd);
+    (* the fake machine's count satisfies the wait at once: one poll *)
     ("wait_for_cores_to_reach_state", BCall "count_cores_in_state" [P "state"; P "app_id"] []);
     ("load_routing_tables",
        BCall "load_routing_table_entries" [EOpq 10]
              [("x", EKeyX (P "routing_tables")); ("y", EKeyY (P "routing_tables")); ("app_id", P "app_id")]);
+    (* allocate, read sv.sdram_sys, write the entries there, load them *)
     ("load_routing_table_entries",
        BThen (BSend (P "x") (P "y") (K 0) (K SCP_alloc_free) [sub 0 0 255 Alloc_alloc_rtr] [app_in 0 8])
-             (BSend (P "x") (P "y") (K 0) (K SCP_router) [sub 0 0 255 RouterOp_load] [app_in 0 8]));
-    ("get_routing_table_entries", sv_field_read);
+       (BThen sv_field_read
+       (BThen (BCall "write" [EOpq 3; EOpq 4; P "x"; P "y"] [])
+              (BSend (P "x") (P "y") (K 0) (K SCP_router) [sub 0 0 255 RouterOp_load] [app_in 0 8]))));
+    ("get_routing_table_entries", BThen sv_field_read (BCall "read" [EOpq 3; EOpq 4; P "x"; P "y"] []));
     ("clear_routing_table_entries",
        BSend (P "x") (P "y") (K 0) (K SCP_alloc_free) [sub 0 0 255 Alloc_free_rtr_by_app] [app_in 0 8]);
+    (* p2p_dims is 0 on the fake machine: no column is read *)
     ("get_p2p_routing_table", sv_field_read);
     ("get_chip_info", BSend (P "x") (P "y") (K 0) (K SCP_info) [] []);
     ("get_working_links", BCall "get_chip_info" [P "x"; P "y"] []);
     ("get_num_working_cores", sv_field_read);
-    ("get_system_info", BCall "get_p2p_routing_table" [P "x"; P "y"] []) ].
+    ("get_system_info", BThen (BCall "get_p2p_routing_table" [P "x"; P "y"] []) (BFail ValueErr)) ].
 
 Definition bmp_send (bd : expr) (cmd : Z) (fields : list (fkind * nat * Z * expr)) : body :=
   BBmp (P "cabinet") (P "frame") bd (K cmd) [] fields.
@@ -451,9 +526,10 @@ Fixpoint call (fuel : nat) (c : ctl) (cls m : string) (s : stack) (pos : list va
       end
   end.
 
-(* deepest chain of calls between decorated methods is 4 (get_iobuf -> get_iobuf_bytes ->
-   read_struct_field -> read); Proofs/Context.v shows that this fuel is never exhausted *)
-Definition FUEL : nat := 6%nat.
+(* deepest chain of calls between decorated methods is 5 (get_iobuf -> get_iobuf_bytes ->
+   read_vcpu_struct_field -> read_struct_field -> read); Proofs/ContextWire.v shows that this fuel is
+   never exhausted *)
+Definition FUEL : nat := 8%nat.
 
 (* ------------------------------------------------------------------ histories: with-blocks, exceptions *)
 Inductive op : Type :=
